@@ -948,6 +948,12 @@ def run(ctx, model_ok=True):
         T("symext", inst=inst, calls=calls)
     for inst in corpus(rng)[:1] + [gen_sepmix(rng, 3, 3, 1, False, mix_id=(1, 1))]:
         T("symext", inst=inst, calls=[(2, "none", True), (1, "none", True)])
+    # rank-deficient two-qubit mixtures (2-3 terms: singular, det = 0 up to rounding) through the analytic ppt=False formula (past failure: sqrt of a
+    # determinant that came out as -1e-35).  Pure product states sit exactly on the boundary of that formula and are not generated.
+    past = np.array([[.065, -.175, .055, -.125], [-.175, .485, -.125, .295], [.055, -.125, .085, -.175], [-.125, .295, -.175, .365]])
+    T("symext", inst={"family": "sepmix", "dA": 2, "dB": 2, "rho": herm(past).real.astype(float), "sep": True, "terms": None, "k": 2, "cplx": False}, calls=[(2, "list", False), (2, "none", False)])
+    for k in (2, 2, 3, 3) if quick else (2, 3) * 20:
+        T("symext", inst=gen_sepmix(rng, 2, 2, k, bool(rng.integers(2))), calls=[(2, ["list", "none", "int"][int(rng.integers(3))], False)])
 
     # heavy tasks first so that the pool drains evenly
     def weight(t):
